@@ -293,6 +293,11 @@ def exitcode(run, p):
                     d = v
     ok = False
     src = None
+    if isinstance(d, ast.Name):
+        # a local bound once to the value (exit_code = r.exit_code)
+        defs = [s_.value for s_ in ast.walk(ws.node) if isinstance(s_, ast.Assign) and any(norm(t) == d.id for t in s_.targets)]
+        if len(defs) == 1:
+            d = defs[0]
     if isinstance(d, ast.Attribute) and d.attr == 'exit_code' and isinstance(d.value, ast.Name):
         for s in ast.walk(ws.node):
             if isinstance(s, ast.Assign) and any(norm(t) == d.value.id for t in s.targets):
